@@ -85,6 +85,12 @@ func vhRequest(sys *System, ctx *Context, op int, loc string) vhResp {
 	case 7: // a client writes the creation marker property itself, with an odd value
 		_, err := sys.AddFact(ctx, loc, "", `{"!createdAt":5}`)
 		return vhResp{nil, err != nil}
+	case 12: // a client writes under the id of the creation marker's property fact
+		_, err := sys.AddFact(ctx, loc, "!.createdAt", `{"x":2}`)
+		return vhResp{nil, err != nil}
+	case 13: // ... or removes that id
+		_, err := sys.RemFact(ctx, loc, "!.createdAt")
+		return vhResp{nil, err != nil}
 	case 11: // clearing a location removes its facts and rules; the location still exists
 		err := sys.ClearLocation(ctx, loc)
 		return vhResp{nil, err != nil}
